@@ -331,6 +331,17 @@ def corpus(vf):
         V = vf.VForm(d, arity=1); v = V.basisfuns(); f = V.input('f')
         V.add(vf.tr(vf.hess(f)) * v * vf.dx); return V
 
+    def folds(d):
+        # every branch of ScalarOperExpr.fold_constants
+        V = vf.VForm(d); u, v = V.basisfuns(); f = V.input('f'); g = V.input('g')
+        z = vf.as_expr(0); one = vf.as_expr(1); m1 = vf.as_expr(-1)
+        e = ((u - z) * (one * v) + (z - u) * (v * one) + (z + f) * (g + z) * u * v + (u / one) * (v / m1) + (m1 * u) * (v * m1)
+             + (z / f) * u * v + (f + (-g)) * u * v + (f - (-g)) * u * v + (z * f) * u * v + (f * z) * u * v
+             + (vf.as_expr(2) * vf.as_expr(3) - vf.as_expr(0.5)) * u * v)
+        V.add(e * vf.dx); return V
+
+    for d in (1, 2):
+        add('folds(%d)' % d, lambda d=d: folds(d))
     for d in (1, 2, 3):
         add('laplace(%d)' % d, lambda d=d: laplace(d))
         add('convdiff(%d)' % d, lambda d=d: convdiff(d))
